@@ -13,14 +13,15 @@ class Hang(BaseException):
 class Env:
     """Fake mido.ports.sleep with a budget, installed for one harness run."""
 
-    def __init__(self):
+    def __init__(self, budget=SLEEP_BUDGET):
         self.sleeps = 0
         self.total = 0
+        self.budget = budget
 
     def sleep(self):
         self.sleeps += 1
         self.total += 1
-        if self.sleeps > SLEEP_BUDGET:
+        if self.sleeps > self.budget:
             raise Hang()
 
     def __enter__(self):
